@@ -184,7 +184,7 @@ def run_bash(ctx, programs, jobs=4, chunk=40):
     tmpd = tempfile.mkdtemp(prefix="c33run_", dir="/tmp")
 
     def one(idxs):
-        script = "".join("unset a b out d; unset -f f\n%s\nprintf '\\n@@@%d\\n'\n" % (programs[i].rstrip("\n"), i) for i in idxs)
+        script = "".join("unset a b c d e q x out i j k; unset -f f\n%s\nprintf '\\n@@@%d\\n'\n" % (programs[i].rstrip("\n"), i) for i in idxs)
         path = os.path.join(tmpd, "w%d.sh" % idxs[0])
         with open(path, "w") as f:
             f.write(script)
@@ -218,7 +218,9 @@ def run(ctx):
     rc1, prim, e1 = ctx.jsonl([binp, "prim", "-seed", seed, "-n", str(nprim)])
     rc2, hist, e2 = ctx.jsonl([binp, "hist", "-seed", seed, "-n", str(nhist)])
     rc3, shell, e3 = ctx.jsonl([binp, "shell", "-seed", seed, "-n", str(nshell)], timeout=900)
-    rc4, kf, e4 = ctx.jsonl([binp, "kf"])
+    import os
+    corpus = os.path.join(os.path.dirname(os.path.dirname(os.path.abspath(__file__))), "corpus", "c33", "regress.txt")
+    rc4, kf, e4 = ctx.jsonl([binp, "kf", "-in", corpus])
     if rc1 or rc2 or rc3 or rc4 or not prim or not hist or not shell or not kf:
         ctx.broken.append(("harness-run", "c33 harness failed rc=%s %s" % ((rc1, rc2, rc3, rc4), (e1 + e2 + e3 + e4)[-800:])))
         return
